@@ -217,6 +217,26 @@ def mode_lifecycle(ct: Container, rep, rule="mode-lifecycle"):
             else:
                 rep.fail(rule, mod, f"Tdf.{f.name}", st, f"`{norm(st)}`: the access mode may only be set to 'rb' by __init__/__exit__ and to 'r+b' by allow_write()")
     rep.floor(rule, n, 3)
+    # ... and nowhere else in the package (a decorator wrapper that saves and restores `_mode` around its implicit context keeps a
+    # permission alive that __exit__ has just withdrawn); the typestate machine below is extracted from the four owners only
+    owners = {"__init__", "allow_write", "__enter__", "__exit__"}
+    for m in ct.prog.modules.values():
+        for fnode in [x for x in ast.walk(m.tree) if isinstance(x, ast.FunctionDef)]:
+            in_tdf = any(f.node is fnode for f in tdf.all_funcs())
+            if in_tdf and fnode.name in owners:
+                continue
+            for x in walk_no_nested(fnode):
+                tg = []
+                if isinstance(x, (ast.Assign, ast.AugAssign, ast.AnnAssign)):
+                    tg = x.targets if isinstance(x, ast.Assign) else [x.target]
+                elif isinstance(x, ast.Call) and norm(x.func) == "setattr" and len(x.args) >= 2 and isinstance(x.args[1], ast.Constant):
+                    if x.args[1].value in ("_mode", "_inside_context"):
+                        rep.fail(rule, m.path.name, fnode.name, x, f"`{norm(x)[:60]}` sets the access state outside __init__ / allow_write / __enter__ / __exit__", construct=f"{fnode.name} sets access state")
+                for t in tg:
+                    for y in ast.walk(t):
+                        if isinstance(y, ast.Attribute) and isinstance(y.ctx, ast.Store) and y.attr in ("_mode", "_inside_context"):
+                            rep.fail(rule, m.path.name, fnode.name, x, f"`{norm(x)[:60]}` sets the access state outside __init__ / allow_write / __enter__ / __exit__: "
+                                     "the permission / context flag no longer follows the with-statement life cycle the guards rely on", construct=f"{fnode.name} sets access state")
     # write permission is granted by the caller only: no method of the class calls allow_write() itself
     for f in tdf.all_funcs():
         for c in walk_no_nested(f.node):
@@ -567,6 +587,10 @@ def run(prog, rep):
     rep.attempt(mode_lifecycle, ct, rep)
     rep.attempt(guard_table, ct, rep)
     rep.attempt(reader_purity, ct, cd, rep)
+    # replace_block and the setters have no refusal of their own: a call outside a write context raises only because every path that
+    # does not refuse for another reason reaches remove_block / add_block (whose guards the table above evaluates)
+    from .c11 import replace_composition
+    rep.attempt(replace_composition, ct, rep)
     rep.note("raise_if_outside_write_context tests `not inside and mode != 'r+b'` (and, not or): allow_write() without a context passes the guard; "
              "what refuses those calls is the closed / never-opened handle, which the typestate rule credits")
     rep.trusted += ["file objects opened 'rb' refuse writes; closed file objects refuse every operation"]
